@@ -754,11 +754,64 @@ def _replace_child(root, old, new):
     return False
 
 
+def _dict_of_pairs(st, defs):
+    """``x = dict(h(a) for a in xs if c)`` with h a new statement-bodied
+    helper returning the (key, value) pair: the loop
+    ``x = {}; for a in xs: if c: k, v = h(a); x[k] = v``."""
+    if not (isinstance(st, (ast.Return, ast.Assign)) and isinstance(
+            st.value, ast.Call) and isinstance(st.value.func, ast.Name)
+            and st.value.func.id == 'dict' and len(st.value.args) == 1
+            and not st.value.keywords and isinstance(
+                st.value.args[0], (ast.GeneratorExp, ast.ListComp))):
+        return None
+    if isinstance(st, ast.Assign) and not (len(st.targets) == 1 and isinstance(
+            st.targets[0], (ast.Name, ast.Subscript, ast.Attribute))):
+        return None
+    comp = st.value.args[0]
+    if len(comp.generators) != 1 or comp.generators[0].is_async:
+        return None
+    e = comp.elt
+    if not (isinstance(e, ast.Call) and isinstance(e.func, ast.Name)
+            and e.func.id in defs and not _expr_bodied(defs[e.func.id])
+            and not _is_cm(defs[e.func.id])):
+        return None
+    gen = comp.generators[0]
+    _COUNTER[0] += 1
+    acc = '__lc%d' % _COUNTER[0]
+    k, v = '__k%d' % _COUNTER[0], '__v%d' % _COUNTER[0]
+    body = [
+        ast.Assign(targets=[ast.Tuple(elts=[
+            ast.Name(id=k, ctx=ast.Store()), ast.Name(id=v, ctx=ast.Store())],
+            ctx=ast.Store())], value=e),
+        ast.Assign(targets=[ast.Subscript(
+            value=ast.Name(id=acc, ctx=ast.Load()),
+            slice=ast.Name(id=k, ctx=ast.Load()), ctx=ast.Store())],
+            value=ast.Name(id=v, ctx=ast.Load()))]
+    body = [ast.copy_location(b, st) for b in body]
+    for c in reversed(gen.ifs):
+        body = [ast.copy_location(ast.If(test=c, body=body, orelse=[]), st)]
+    loop = ast.For(target=gen.target, iter=gen.iter, body=body, orelse=[])
+    for x in ast.walk(loop.target):
+        if isinstance(x, ast.Name):
+            x.ctx = ast.Store()
+    first = ast.copy_location(ast.Assign(
+        targets=[ast.Name(id=acc, ctx=ast.Store())],
+        value=ast.Dict(keys=[], values=[])), st)
+    st.value = ast.Name(id=acc, ctx=ast.Load())
+    out = [first, ast.copy_location(loop, st), st]
+    for x in out:
+        ast.fix_missing_locations(x)
+    return out
+
+
 def _decomprehend(st, defs):
     """``x = [h(a) for a in xs if c]`` (also ``return [...]``, set and dict
     comprehensions) whose element calls a new statement-bodied helper, as
     the loop it abbreviates - so that the helper can be expanded in the
     loop body."""
+    pairs = _dict_of_pairs(st, defs)
+    if pairs is not None:
+        return pairs
     if not (isinstance(st, (ast.Return, ast.Assign)) and isinstance(
             st.value, (ast.ListComp, ast.SetComp, ast.DictComp))):
         return None
